@@ -76,6 +76,52 @@ func vpCreate(n, node int, owner string, kinds ...string) vt.M {
 	return vt.M{"a": "pod_create", "n": n, "node": node, "owner": owner, "kind": vpKind(kinds...)}
 }
 
+func vpCreateVia(n, node int, owner, via string, kinds ...string) vt.M {
+	m := vpCreate(n, node, owner, kinds...)
+	m["via"] = via
+	return m
+}
+func vpFailKind(op string, nth int, kind string) vt.M {
+	return vt.M{"fail": vt.M{"op": op, "nth": nth, "after": false, "kind": kind}}
+}
+
+// pods that need a PodENI only because their node is labelled eniOnly (no pod-eni annotation), and API read errors
+// (transient error / NotFound) in every read of the collector of records and of the two reconcilers
+func vpEnumNodeLabel() [][]any {
+	conf := func(names int) vt.M { return vt.M{"a": "conf", "names": names, "eniOnly": vpL(1, 2)} }
+	var out [][]any
+	add := func(sc ...any) { out = append(out, sc) }
+	pc, ec := func(n int, x ...vt.M) vt.M { return vpCallStep("pc", n, x...) }, func(n int, x ...vt.M) vt.M { return vpCallStep("ec", n, x...) }
+	gcr := func(x ...vt.M) vt.M { return vpCallStep("gcr", 0, x...) }
+	dm := func(n int) vt.M { return vpEnv("daemon", n) }
+	for _, via := range []string{"node", "anno"} {
+		for _, k := range []string{"elastic", "short"} {
+			for _, kind := range []string{"error", "notfound"} {
+				// the pod runs all along; a pass of the collector cannot read the node / the pod / the list
+				add(conf(1), vpCreateVia(1, 1, "sts", via, k), pc(1), ec(1), dm(1), gcr(), vt.M{"a": "elapse", "ms": vpTTLShort + 3000},
+					gcr(vpFailKind("get_node", 1, kind)), ec(1), ec(1), dm(1), gcr(vpFailKind("get_pod", 1, kind)), ec(1), ec(1), gcr(vpFailKind("list_pe", 1, kind)), ec(1), dm(1),
+					vpEnv("pod_gone", 1), gcr(vpFailKind("get_node", 1, kind)), pc(1), ec(1), ec(1))
+			}
+			// two pods on two nodes, the second node read of the pass fails
+			add(vt.M{"a": "conf", "names": 2, "eniOnly": vpL(1, 2)}, vpCreateVia(1, 1, "sts", via, k), vpCreateVia(2, 2, "sts", via, k), pc(1), pc(2), ec(1), ec(2),
+				gcr(vpFailKind("get_node", 2, "error")), ec(1), ec(2), ec(1), ec(2), dm(1), dm(2))
+			// the whole life of such a pod, with the same name coming back on the other node
+			add(conf(1), vpCreateVia(1, 1, "sts", via, k), pc(1), ec(1), gcr(), vpEnv("pod_gone", 1), vpCreateVia(1, 2, "sts", via, k), pc(1), ec(1), ec(1), pc(1), pc(1), pc(1), ec(1), dm(1), gcr(),
+				vpEnv("pod_term", 1), pc(1), gcr(), vpEnv("pod_exit", 1), pc(1), ec(1), ec(1))
+		}
+		// read errors inside the reconcilers, every read, first and second occurrence
+		for _, op := range []string{"get_pod", "get_pe", "get_node"} {
+			for nth := 1; nth <= 2; nth++ {
+				add(conf(1), vpCreateVia(1, 1, "none", via, "elastic"), pc(1, vpFail(op, nth, false)), ec(1, vpFail(op, nth, false)), pc(1), ec(1), dm(1),
+					vpEnv("pod_gone", 1), pc(1, vpFail(op, nth, false)), ec(1, vpFail(op, nth, false)), ec(1, vpFail(op, nth, false)), pc(1), ec(1), ec(1))
+				add(conf(1), vpCreateVia(1, 1, "sts", via, "never"), pc(1), ec(1), vpEnv("pod_gone", 1), pc(1, vpFailKind(op, nth, "notfound")), ec(1, vpFailKind(op, nth, "notfound")),
+					vpCreateVia(1, 2, "sts", via, "never"), pc(1, vpFail(op, nth, false)), pc(1), pc(1), pc(1), ec(1, vpFail(op, nth, false)), ec(1), dm(1))
+			}
+		}
+	}
+	return out
+}
+
 // ---------------------------------------------------------------------------- enumerated families
 
 func vpEnumerated(which string) [][]any {
@@ -85,6 +131,7 @@ func vpEnumerated(which string) [][]any {
 	}
 	thorough := vt.Thorough()
 	out = append(out, vpEnumLife()...)
+	out = append(out, vpEnumNodeLabel()...)
 	out = append(out, vpEnumTTL(thorough)...)
 	out = append(out, vpEnumPopulations()...)
 	return out
@@ -318,6 +365,10 @@ func vpRandom(i int64) []any {
 		}
 	}
 	conf["recs"], conf["enis"] = recs, enis
+	labelled := r.Intn(2) == 0
+	if labelled {
+		conf["eniOnly"] = vpL(1, 2)
+	}
 	sc := vpL(conf)
 	var gen func(depth int) vt.M
 	gen = func(depth int) vt.M {
@@ -330,7 +381,11 @@ func vpRandom(i int64) []any {
 			if pk[0] != "elastic" || len(recs) > 0 { // fixed addresses belong to workloads with stable pod names
 				own = []string{"sts", "none"}[r.Intn(2)]
 			}
-			return vpCreate(n, 1+r.Intn(2), own, pk...)
+			via := "anno"
+			if labelled && r.Intn(2) == 0 {
+				via = "node"
+			}
+			return vpCreateVia(n, 1+r.Intn(2), own, via, pk...)
 		case x < 17:
 			return vpEnv("pod_term", n)
 		case x < 22:
@@ -345,13 +400,13 @@ func vpRandom(i int64) []any {
 		a := []string{"pc", "pc", "pc", "ec", "ec", "ec", "gcr", "gcr", "gcl", "gcla"}[r.Intn(10)]
 		st := vpCallStep(a, n)
 		if r.Intn(6) == 0 {
-			ops := map[string][]string{"pc": {"create", "pe_create", "pe_status", "pe_update"}, "ec": {"attach", "detach", "delete", "pe_status", "pe_update", "pe_delete"}}[a]
+			ops := map[string][]string{"pc": {"create", "pe_create", "pe_status", "pe_update", "get_pod", "get_pe", "get_node"},
+				"ec":  {"attach", "detach", "delete", "pe_status", "pe_update", "pe_delete", "get_pod", "get_pe", "get_node"},
+				"gcr": {"get_pod", "get_node", "get_node", "list_pe"}}[a]
 			if len(ops) > 0 {
 				op := ops[r.Intn(len(ops))]
-				st["fail"] = vt.M{"op": op, "nth": 1 + r.Intn(2), "after": r.Intn(2) == 0 && (op == "attach" || op == "detach" || op == "delete")}
-				if a == "pc" && op != "create" && op != "pe_create" && op != "pe_status" && op != "pe_update" {
-					delete(st, "fail")
-				}
+				st["fail"] = vt.M{"op": op, "nth": 1 + r.Intn(2), "after": r.Intn(2) == 0 && (op == "attach" || op == "detach" || op == "delete"),
+					"kind": []string{"error", "notfound"}[r.Intn(2)]}
 			}
 		}
 		if depth < 2 && r.Intn(3) == 0 {
